@@ -33,7 +33,7 @@ COUNTS = {'quick': 420, 'thorough': 12000}
 BUDGET = {'quick': 110, 'thorough': 1500}
 TIMEOUT = 240
 SHRINK_LISTS = [['ops']]
-EXPECTED_PROBES = ['hist_calls', 'same_object_calls', 'pattern_changed', 'singular_seen', 'recovered_after_singular', 'refactor_path_taken',
+EXPECTED_PROBES = ['needs_pivoting', 'hist_calls', 'same_object_calls', 'pattern_changed', 'singular_seen', 'recovered_after_singular', 'refactor_path_taken',
                    'cross_compared', 'eig_compared', 'repeat_compared', 'ipadd0', 'linsolve1']
 RULE = ('plans of classes hist/stale/cross/repeat (module doc); non-trivial = a pattern or value change reached a cached factor, a '
         'fault fired, or two configurations were compared; distinct = (class, back-end, op-kind sequence / option pair / case)')
@@ -48,7 +48,7 @@ def crash_sig(plan):
     """Enrich the signature of a worker death with what the plan was doing (used for known-finding matching)."""
     if plan.get('cls') == 'hist':
         kinds = [o['kind'] for o in plan.get('ops', [])]
-        risky = any(o['kind'] in ('new_pattern', 'new_size') and not o.get('refresh') and o.get('call') == 'solve'
+        risky = any(o['kind'] in ('new_pattern', 'new_size', 'needs_pivoting') and not o.get('refresh') and o.get('call') == 'solve'
                     for o in plan.get('ops', []))
         return {'cls': 'hist', 'backend': plan.get('backend'), 'pattern_change_without_refresh': bool(risky)}
     return {'cls': plan.get('cls')}
@@ -63,7 +63,7 @@ def plans(seed, tier, count):
                 out.append({'property': PROP, 'cls': 'hist', 'seed': core.H('fix16', be, refresh, call), 'backend': be, 'n': 6,
                             'ops': [{'kind': k, 'call': call, 'refresh': refresh or k == 'first'} for k in
                                     ('first', 'same_pattern', 'same_object', 'new_pattern', 'same_object', 'singular', 'same_pattern', 'new_size',
-                                     'same_pattern', 'same_object_singular', 'same_object')]})
+                                     'same_pattern', 'same_object_singular', 'same_object', 'needs_pivoting', 'same_pattern')]})
     i = 0
     while len(out) < count:
         out.append({'stub': True, 'seed': core.H(seed, PROP, i), 'tier': tier})
@@ -84,7 +84,7 @@ def elaborate(stub):
         ops = [{'kind': 'first', 'call': r.choice(['solve', 'linsolve']), 'refresh': True}]
         for _ in range(r.randint(2, 9)):
             kind = r.choice(['same_pattern'] * 3 + ['same_object'] * 3 + ['new_pattern'] * 2 + ['new_size', 'singular', 'singular',
-                                                                                                'same_object_singular'])
+                                                                                                'same_object_singular', 'needs_pivoting'])
             ops.append({'kind': kind, 'call': r.choice(['solve', 'solve', 'linsolve']), 'refresh': r.random() < 0.6})
         return {'property': PROP, 'cls': 'hist', 'seed': seed, 'backend': be, 'n': n, 'ops': ops}
     rng = stream(seed, 'case')
@@ -174,7 +174,20 @@ def run_hist(plan):
             probes['pattern_changed'] += 1
         elif kind in ('singular', 'same_object_singular'):
             singular = True
-        A = _fill(r, n, pat, singular=singular)
+        if kind == 'needs_pivoting':
+            # a regular, well-conditioned matrix whose diagonal is tiny: a row-rotated diagonally dominant matrix plus 1e-13 on the
+            # diagonal; only a factorisation that pivots solves it
+            base = _rand_pattern(r, n, density=r.choice([0.15, 0.3]))
+            A0 = _fill(r, n, base)
+            A = np.roll(A0, 1, axis=0)
+            for i in range(n):
+                if A[i, i] == 0.0:
+                    A[i, i] = 1e-13
+            pat = sorted({(i, j) for i in range(n) for j in range(n) if A[i, j] != 0.0})
+            probes['pattern_changed'] += 1
+            probes['needs_pivoting'] = probes.get('needs_pivoting', 0) + 1
+        else:
+            A = _fill(r, n, pat, singular=singular)
         b = np.array([r.uniform(-1, 1) for _ in range(n)])
         if kind.startswith('same_object') and oi > 0:
             # the matrix object of the previous call, values changed in place (what ipadd / ipset accumulation does)
